@@ -61,6 +61,12 @@ func (f Union) hasN(n int64) bool {
 	return false
 }
 
+// hasIndex returns true if the union includes the index i of a collection of
+// the given size, counting negative union members from the end.
+func (f Union) hasIndex(i, size int) bool {
+	return f.hasN(int64(i)) || f.hasN(int64(i-size))
+}
+
 func (f Union) hasKey(key string) bool {
 	for _, x := range f {
 		if sx, ok := x.(string); ok && sx == key {
@@ -76,7 +82,7 @@ func (f Union) removeOne(value any) (out any, changed bool) {
 	case []any:
 		ns := make([]any, 0, len(tv))
 		for i, v := range tv {
-			if !changed && f.hasN(int64(i)) {
+			if !changed && f.hasIndex(i, len(tv)) {
 				changed = true
 			} else {
 				ns = append(ns, v)
@@ -103,7 +109,7 @@ func (f Union) removeOne(value any) (out any, changed bool) {
 	case gen.Array:
 		ns := make(gen.Array, 0, len(tv))
 		for i, v := range tv {
-			if !changed && f.hasN(int64(i)) {
+			if !changed && f.hasIndex(i, len(tv)) {
 				changed = true
 			} else {
 				ns = append(ns, v)
@@ -130,7 +136,7 @@ func (f Union) removeOne(value any) (out any, changed bool) {
 	case RemovableIndexed:
 		size := tv.Size()
 		for i := 0; i < size; i++ {
-			if f.hasN(int64(i)) {
+			if f.hasIndex(i, size) {
 				tv.RemoveValueAtIndex(i)
 				changed = true
 				break
@@ -157,7 +163,7 @@ func (f Union) removeOne(value any) (out any, changed bool) {
 			cnt := rv.Len()
 			nc := 0
 			for i := 0; i < cnt; i++ {
-				if !changed && f.hasN(int64(i)) {
+				if !changed && f.hasIndex(i, cnt) {
 					changed = true
 				} else {
 					nc++
@@ -168,7 +174,7 @@ func (f Union) removeOne(value any) (out any, changed bool) {
 				ni := 0
 				ns := reflect.MakeSlice(rv.Type(), nc, nc)
 				for i := 0; i < cnt; i++ {
-					if !changed && f.hasN(int64(i)) {
+					if !changed && f.hasIndex(i, cnt) {
 						changed = true
 					} else {
 						ns.Index(ni).Set(rv.Index(i))
@@ -200,7 +206,7 @@ func (f Union) remove(value any) (out any, changed bool) {
 	case []any:
 		ns := make([]any, 0, len(tv))
 		for i, v := range tv {
-			if f.hasN(int64(i)) {
+			if f.hasIndex(i, len(tv)) {
 				changed = true
 			} else {
 				ns = append(ns, v)
@@ -219,7 +225,7 @@ func (f Union) remove(value any) (out any, changed bool) {
 	case gen.Array:
 		ns := make(gen.Array, 0, len(tv))
 		for i, v := range tv {
-			if f.hasN(int64(i)) {
+			if f.hasIndex(i, len(tv)) {
 				changed = true
 			} else {
 				ns = append(ns, v)
@@ -238,7 +244,7 @@ func (f Union) remove(value any) (out any, changed bool) {
 	case RemovableIndexed:
 		size := tv.Size()
 		for i := (size - 1); i >= 0; i-- {
-			if f.hasN(int64(i)) {
+			if f.hasIndex(i, size) {
 				tv.RemoveValueAtIndex(i)
 				changed = true
 			}
@@ -262,7 +268,7 @@ func (f Union) remove(value any) (out any, changed bool) {
 			cnt := rv.Len()
 			nc := 0
 			for i := 0; i < cnt; i++ {
-				if f.hasN(int64(i)) {
+				if f.hasIndex(i, cnt) {
 					changed = true
 				} else {
 					nc++
@@ -273,7 +279,7 @@ func (f Union) remove(value any) (out any, changed bool) {
 				ni := 0
 				ns := reflect.MakeSlice(rv.Type(), nc, nc)
 				for i := 0; i < cnt; i++ {
-					if f.hasN(int64(i)) {
+					if f.hasIndex(i, cnt) {
 						changed = true
 					} else {
 						ns.Index(ni).Set(rv.Index(i))
